@@ -240,7 +240,7 @@ fn generate(rng: &mut Rng, n: usize, tier: &str, out: &mut dyn Write) {
         }
     }
     writeln!(out, "stress 4 {}", if tier == "thorough" { 200 } else { 15 }).unwrap();
-    writeln!(out, "stressm 6 {}", if tier == "thorough" { 150 } else { 10 }).unwrap();
+    writeln!(out, "stressm 6 {}", if tier == "thorough" { 150 } else { 6 }).unwrap();
     writeln!(out, "get").unwrap();
     // random part: n op lines in cases of ~8 ops
     let mut left = n;
